@@ -1,36 +1,43 @@
 #!/bin/bash
-# lib/seedtest.sh <PID> <srcdir> [name] — confirm a seeded change (demo fails with it / passes without it, lib tests pass with it),
-# run the registered check against it in /repo, undo it, and store it under /verif/seeded/<name>/.
+# lib/seedtest.sh <PID> <srcdir> [name] — confirm a seeded change and run the registered check against it.
+#
+# Works in two scratch worktrees so that /repo and /verif themselves are never disturbed while other work is
+# going on: $SEEDREPO (a detached worktree of /repo at its HEAD) and $SEEDVERIF (a detached worktree of /verif
+# at its HEAD, with its own build directories, always run with GEO_REPO=$SEEDREPO).
+#  1. the demo passes without the change and fails with it; `cargo test -p geo --lib` and `-p geo-types` still
+#     pass with it (apart from the three baseline geodesic failures);
+#  2. `./check <PID>` (committed /verif) against the changed tree: exit code and VIOLATION lines are recorded;
+#  3. the change is undone; patch, demo, logs and meta.json are stored under /verif/seeded/<name>/.
 set -u
 PID=$1; SRC=$2; NAME=${3:-$PID}
 export CARGO_NET_OFFLINE=true
-WT=/tmp/seedwt-$NAME
+SEEDREPO=${SEEDREPO:-/tmp/seedrepo}
+SEEDVERIF=${SEEDVERIF:-/tmp/seedverif}
 OUT=/verif/seeded/$NAME
 mkdir -p $OUT
 cp $SRC/patch.diff $SRC/demo.rs $OUT/ 2>/dev/null
 cp $SRC/meta.json $OUT/meta.agent.json 2>/dev/null
-git -C /repo worktree remove --force $WT 2>/dev/null
-git -C /repo worktree add --detach $WT >/dev/null 2>&1
-cp /repo/Cargo.lock $WT/ 2>/dev/null
-cd $WT
+[ -d $SEEDREPO ] || git -C /repo worktree add --detach $SEEDREPO >/dev/null 2>&1
+git -C $SEEDREPO checkout -q --detach $(git -C /repo rev-parse HEAD); git -C $SEEDREPO checkout -q -- .; cp /repo/Cargo.lock $SEEDREPO/ 2>/dev/null
+if [ ! -d $SEEDVERIF ]; then git -C /verif worktree add --detach $SEEDVERIF >/dev/null 2>&1; fi
+git -C $SEEDVERIF checkout -q --detach $(git -C /verif rev-parse HEAD)
+if [ ! -x $SEEDVERIF/lean/.lake/build/bin/geodriver ]; then (cd $SEEDVERIF && GEO_REPO=$SEEDREPO ./setup.sh > $OUT/setup.log 2>&1); fi
+cd $SEEDREPO
 mkdir -p geo/tests; cp $OUT/demo.rs geo/tests/mut_demo.rs
 cargo test -p geo --offline --test mut_demo > $OUT/demo_without.log 2>&1; R0=$?
-git apply $OUT/patch.diff || { echo "PATCH DOES NOT APPLY"; exit 3; }
+git apply $OUT/patch.diff || { echo "PATCH DOES NOT APPLY"; rm -f geo/tests/mut_demo.rs; exit 3; }
 cargo test -p geo --offline --test mut_demo > $OUT/demo_with.log 2>&1; R1=$?
 cargo test -p geo --lib --offline > $OUT/libtests_with.log 2>&1
 grep -E "^test [^ ]+ \.\.\. FAILED" $OUT/libtests_with.log > $OUT/libtests_failed.txt; LIBFAIL=$(grep -v "geodesic" $OUT/libtests_failed.txt | wc -l)
 cargo test -p geo-types --offline > $OUT/typestests_with.log 2>&1
 TYPESFAIL=$(grep -E "^test [^ ]+ \.\.\. FAILED" $OUT/typestests_with.log | wc -l)
-cd /verif
-git -C /repo worktree remove --force $WT
-# run the registered check against the change applied to /repo itself, then undo it
-git -C /repo apply $OUT/patch.diff
-./check $PID > $OUT/check_with.log 2>&1; RC=$?
-git -C /repo checkout -- .
-tail -c 3000 $OUT/libtests_with.log | grep -E "^test result" > $OUT/libtests_summary.txt
+rm -f geo/tests/mut_demo.rs
+(cd $SEEDVERIF && GEO_REPO=$SEEDREPO ./check $PID > $OUT/check_with.log 2>&1); RC=$?
+git -C $SEEDREPO checkout -q -- .
+grep -E "^test result" $OUT/libtests_with.log > $OUT/libtests_summary.txt
 rm -f $OUT/libtests_with.log $OUT/typestests_with.log
 echo "seed $NAME: demo_without_rc=$R0 demo_with_rc=$R1 lib_failures_excl_geodesic=$LIBFAIL types_failures=$TYPESFAIL check_rc=$RC"
-grep -E "^VIOLATION|^KNOWN|quick:" $OUT/check_with.log | cut -c1-250
+grep -E "^VIOLATION|quick:|MACHINERY" $OUT/check_with.log | cut -c1-250
 python3 - "$OUT" "$PID" "$R0" "$R1" "$LIBFAIL" "$TYPESFAIL" "$RC" <<'PY'
 import json,sys,os
 out,pid,r0,r1,lf,tf,rc=sys.argv[1:]
@@ -40,7 +47,7 @@ except Exception: pass
 viol=[l.strip() for l in open(os.path.join(out,'check_with.log')) if l.startswith('VIOLATION')]
 meta={"property":pid,"summary":agent.get("summary"),"needs":agent.get("needs"),"files":agent.get("files"),
  "confirmed":{"demo_passes_without_change":r0=="0","demo_fails_with_change":r1!="0","geo_lib_tests_failing_with_change_excluding_3_geodesic":int(lf),"geo_types_tests_failing_with_change":int(tf)},
- "ran":["cargo test -p geo --offline --test mut_demo (without / with the change)","cargo test -p geo --lib --offline (with)","cargo test -p geo-types --offline (with)","git -C /repo apply patch.diff; ./check %s; git -C /repo checkout -- ."%pid],
+ "ran":["cargo test -p geo --offline --test mut_demo (without / with the change)","cargo test -p geo --lib --offline (with)","cargo test -p geo-types --offline (with)","patch applied to a scratch worktree of /repo; GEO_REPO=<that worktree> ./check %s from a worktree of the committed /verif; patch undone"%pid],
  "check_exit_code":int(rc),"check_violation_lines":viol,"detected":int(rc)==1 and bool(viol)}
 json.dump(meta,open(os.path.join(out,'meta.json'),'w'),indent=1)
 PY
